@@ -43,6 +43,10 @@ Proof.
   - apply IH. intros; apply H; [right | right |]; assumption.
 Qed.
 
+Lemma Forall2_map_eq : forall {A B C} (f : A -> C) (g : B -> C) l l',
+  Forall2 (fun a b => f a = g b) l l' -> map f l = map g l'.
+Proof. intros A B C f g l l' H; induction H; cbn; [reflexivity | f_equal; assumption]. Qed.
+
 (* ------------------------------------------------------------------ function updates *)
 
 Lemma upd_same : forall f i o, upd f i o i = o.
@@ -594,7 +598,8 @@ Section Guarded.
       assert (EM : build M d = ({| objs := objs M; next := next M; env := env M ++ [None] |}, None)) by (unfold build; rewrite B; reflexivity).
       rewrite EF, EM in *. cbn [fst snd] in *. split; [| reflexivity].
       split; [exact GF' |]. split; [exact GM' |]. split; [cbn; rewrite !app_length; cbn; lia |].
-      eapply kept_rel_frame with (x := None) (y := None); eauto; try reflexivity. intros _; left; auto.
+      apply (kept_rel_frame F M _ _ None None GF GM L K);
+        [reflexivity | reflexivity | intros; reflexivity | intros; reflexivity | intros _; left; auto].
     - set (g := d_geom d) in *.
       set (f2F := init_all (write_mtr fF allF (d_copied d) (g_trials g)) allF g).
       set (f2M := init_all (write_mtr fM allM (d_copied d) (g_trials g)) allM g).
@@ -623,13 +628,13 @@ Section Guarded.
       { destruct Sp as [[-> ->] | [-> ->]]; apply Forall2_app; assumption. }
       rewrite EF, EM in *. cbn [fst snd] in *. split.
       + split; [exact GF' |]. split; [exact GM' |]. split; [cbn; rewrite !app_length; cbn; lia |].
-        eapply kept_rel_frame with (x := Some allF) (y := Some allM); eauto; try reflexivity.
+        apply (kept_rel_frame F M _ _ (Some allF) (Some allM) GF GM L K); [reflexivity | reflexivity | | |].
         * intros id Hid Sid. cbn [objs]. pose proof (build_frame F d id GF D Hid Sid) as Fr.
           rewrite EF in Fr. exact Fr.
         * intros id Hid Sid. cbn [objs]. pose proof (build_frame M d id GM D Hid Sid) as Fr.
           rewrite EM in Fr. exact Fr.
         * intros _. right. exists allF, allM. repeat split. exact Vall.
-      + f_equal. clear - Vall. induction Vall; cbn; [reflexivity | f_equal; assumption].
+      + f_equal. apply (Forall2_map_eq (fun i => view (f2F i)) (fun i => view (f2M i))). exact Vall.
   Qed.
 
   (** a construction that the twin skips *)
@@ -648,21 +653,22 @@ Section Guarded.
     assert (EnvF : exists x, env (fst (build F d)) = env F ++ [x]).
     { unfold build. destruct (gather F d) as [[[f nx] all] |]; cbn; eauto. }
     destruct EnvF as [x Ex]. split; [rewrite Ex; cbn; rewrite !app_length; cbn; lia |].
-    eapply kept_rel_frame with (x := x) (y := None); eauto; try reflexivity.
+    apply (kept_rel_frame F M _ _ x None GF GM L K); [exact Ex | reflexivity | | |].
     - intros id Hid Sid. apply build_frame; auto.
+    - intros; reflexivity.
     - intros Hk'. congruence.
   Qed.
 
   Lemma run_cons : forall s d r, run s (d :: r) =
     (fst (run (fst (build s d)) r), snd (build s d) :: snd (run (fst (build s d)) r)).
-  Proof. intros s d r; cbn. destruct (build s d) as [s1 o]. destruct (run s1 r) as [s2 os]. reflexivity. Qed.
+  Proof. intros s d r; cbn. destruct (build s d) as [s1 o]. cbn [fst snd]. destruct (run s1 r) as [s2 os]. reflexivity. Qed.
 
   Lemma run_sim : forall ds j F M, sim F M -> List.length (env F) = j ->
     (forall d, In d ds -> desc_ok d) -> wf_from n j ds = true -> closed_from keep j ds = true ->
     forall i, keep (j + i) = true ->
       nth_error (snd (run F ds)) i = nth_error (snd (run M (mask_from keep j ds))) i.
   Proof.
-    induction ds as [| d r IH]; intros j F M S Hj Hok Hwf Hcl i Hi; [destruct i; reflexivity |].
+    induction ds as [| d r IH]; intros j F M Sm Hj Hok Hwf Hcl i Hi; [destruct i; reflexivity |].
     cbn [mask_from]. cbn in Hwf, Hcl.
     apply andb_true_iff in Hwf; destruct Hwf as [Hwf1 Hwf]. apply andb_true_iff in Hwf1; destruct Hwf1 as [Hdeps _].
     apply andb_true_iff in Hcl; destruct Hcl as [Hcl1 Hcl].
@@ -674,7 +680,7 @@ Section Guarded.
     - assert (Hd : Forall (fun b => keep b = true /\ (b < List.length (env F))%nat) (deps d)).
       { rewrite Forall_forall. intros b Hb. rewrite forallb_forall in Hcl1, Hdeps. split; [apply Hcl1; exact Hb |].
         specialize (Hdeps b Hb). apply Nat.ltb_lt in Hdeps. lia. }
-      destruct (build_sim_keep F M d S D Hd) as [S' E].
+      destruct (build_sim_keep F M d Sm D Hd) as [Sm' E].
       destruct i as [| i]; [cbn; rewrite E; reflexivity |]. cbn [nth_error].
       apply IH with (j := S j); auto.
       + destruct (Lenv F d) as [y Ey]. rewrite Ey, app_length; cbn; lia.
